@@ -960,6 +960,7 @@ func TestReplay(t *testing.T) {
 			return checkErr(&c)
 		},
 		"scalar": func(raw json.RawMessage) *ev.Failure { return nil },
+		"rebind": replayRebind,
 		"reentrant": func(raw json.RawMessage) *ev.Failure {
 			var c ReCase
 			json.Unmarshal(raw, &c)
